@@ -234,8 +234,8 @@ func smtSym(s string) string {
 // ---------------------------------------------------------------------------
 
 type Decls struct {
-	sorts     map[string]bool   // uninterpreted sorts
-	datatypes []string          // declare-datatypes texts, in dependency order
+	sorts     map[string]bool // uninterpreted sorts
+	datatypes []string        // declare-datatypes texts, in dependency order
 	dtSeen    map[string]bool
 	funs      map[string]string // name -> full declare-fun/define-fun text
 	funOrder  []string
